@@ -9,7 +9,7 @@ seeded/<name>/meta.json under "recheck" (commit of /repo, per check: detected / 
 """
 import json, os, subprocess, sys, time
 ROOT = os.path.normpath(os.path.join(os.path.dirname(os.path.abspath(__file__)), ".."))
-REPO = "/repo"
+REPO = os.environ.get("VERIF_REPO", "/repo")
 
 
 def sh(cmd, cwd, timeout=3600):
